@@ -130,9 +130,8 @@ class History(object):
         self.ended = False
         self.flags = set()
         self.excluded = 0
-        bad = self.compare("after creation")
-        if bad is not None:
-            raise HarnessError("seed database does not match the model: %s" % bad.msg)
+        # the seed import is library behaviour too: a mismatch here is reported as the first step's failure
+        self.init_failure = self.compare("after creation")
 
     # ---- model helpers
     def _close2(self):
@@ -225,6 +224,10 @@ class History(object):
     # ---- operations
     def step(self, op):
         self.ops.append(op)
+        if self.init_failure is not None:
+            bad, self.init_failure = self.init_failure, None
+            self.ended = True
+            return bad
         if self.ended:
             return None
         kind = op["op"]
@@ -418,6 +421,8 @@ class History(object):
 def run_history(ops, ctx, flavor="gff3"):
     h = History(ctx, flavor)
     try:
+        if h.init_failure is not None:
+            return h.init_failure, h
         for op in ops:
             bad = h.step(op)
             if bad is not None:
